@@ -108,3 +108,27 @@ pub fn c08_rewrite_through_borrow(member: &mut Member, ns: &str) {
 pub fn c08_builds_fresh(name: &str) -> Member {
     Member { name: name.to_string(), namespace: None }
 }
+
+// ---- C15.R4: buffering wrappers around the sink ---------------------------------------------------
+pub fn c15_buffered_unflushed<W: Write>(w: &mut W) -> std::io::Result<()> {
+    let mut b = std::io::BufWriter::new(w);
+    writeln!(b, "x")?;
+    Ok(())
+}
+pub fn c15_buffered_flushed<W: Write>(w: &mut W) -> std::io::Result<()> {
+    let mut b = std::io::BufWriter::new(w);
+    writeln!(b, "x")?;
+    b.flush()?;
+    Ok(())
+}
+pub fn c15_buffered_flush_returned<W: Write>(w: &mut W) -> std::io::Result<()> {
+    let mut b = std::io::LineWriter::new(w);
+    writeln!(b, "x")?;
+    b.flush()
+}
+pub fn c15_buffered_flush_ignored<W: Write>(w: &mut W) -> std::io::Result<()> {
+    let mut b = std::io::BufWriter::with_capacity(16, w);
+    writeln!(b, "x")?;
+    let _ = b.flush();
+    Ok(())
+}
